@@ -33,6 +33,10 @@ struct ModelCoin<H: ElementHasher> {
     /// nonces folded with the harness's own FNV): two coins *should* be in different states
     /// exactly when these differ, whatever the hasher under test makes of them
     abs: u64,
+    /// reach counters: candidates refused by the rejection sampling; of those, candidates whose
+    /// offending coordinate still fits the modulus' bit length (the window [M, 2^bits))
+    rejected: u64,
+    rejected_within_bit_length: u64,
 }
 
 fn modulus_u128<B: StarkField>() -> u128 {
@@ -89,7 +93,7 @@ impl<B: StarkField, H: ElementHasher<BaseField = B>> ModelCoin<H> {
         for e in seed {
             abs = fold(abs, b'e', &to_u128(*e).to_le_bytes());
         }
-        ModelCoin { cfg, seed: H::hash_elements(seed), counter: 0, abs }
+        ModelCoin { cfg, seed: H::hash_elements(seed), counter: 0, abs, rejected: 0, rejected_within_bit_length: 0 }
     }
     fn mwi(&self, value: u64) -> H::Digest {
         ref_merge_with_int::<B, H>(self.cfg, self.seed, value).unwrap_or_else(|| H::merge_with_int(self.seed, value))
@@ -120,6 +124,11 @@ impl<B: StarkField, H: ElementHasher<BaseField = B>> ModelCoin<H> {
                 .collect();
             if coords.iter().all(|c| *c < m) {
                 return Some(coords);
+            }
+            self.rejected += 1;
+            let bits = 128 - (m - 1).leading_zeros();
+            if bits < 128 && coords.iter().all(|c| *c < (1u128 << bits)) {
+                self.rejected_within_bit_length += 1;
             }
         }
         None
@@ -304,7 +313,21 @@ fn apply<B: SimField, H: ElementHasher<BaseField = B>>(
         };
         ctx.event_with("op", simcore::rng::fnv1a(&out) ^ i as u64, || format!("{who} {:?} -> {:02x?}", op, &out[..out.len().min(8)]));
         outs.push((out, model.state()));
+        match op {
+            Op::Draw(d) => ctx.probe(["draw_base_field", "draw_base_field", "draw_quadratic_extension", "draw_cubic_extension"][(*d as usize).min(3)]),
+            Op::Integers { count, log_domain, nonce } => {
+                if *nonce >= 1 << 32 {
+                    ctx.probe("nonce_at_least_2_pow_32");
+                }
+                if (*count as u64) > (1u64 << log_domain) {
+                    ctx.probe("more_integers_than_domain_points");
+                }
+            },
+            _ => {},
+        }
     }
+    ctx.probe_n("candidates_rejected_by_sampling", model.rejected);
+    ctx.probe_n("candidates_rejected_within_modulus_bit_length", model.rejected_within_bit_length);
     Some(outs)
 }
 
